@@ -170,6 +170,14 @@ func rulePanicScope(c *Ctx) {
 // C12 bigint-ctor
 
 func ruleBigintCtor(c *Ctx) {
+	// byte strings become integers only if they are at most 32 bytes long, whatever their value (padding included)
+	runGates(c, []GateSpec{{
+		ID: "Buffer.Convert.integer-length", Fn: [3]string{"pkg/vm/stackitem", "Buffer", "Convert"}, Target: "call:pkg/encoding/bigint.FromBytes",
+		Guards: []Guard{{ID: "length", Doc: "the buffer is at most MaxBigIntegerSizeBits/8 bytes long", Alts: [][]string{{"builtin.len", "pkg/vm/stackitem.MaxBigIntegerSizeBits"}}}},
+	}, {
+		ID: "ByteArray.TryInteger.length", Fn: [3]string{"pkg/vm/stackitem", "ByteArray", "TryInteger"}, Target: "call:pkg/encoding/bigint.FromBytes",
+		Guards: []Guard{{ID: "length", Doc: "the byte string is at most MaxBigIntegerSizeBits/8 bytes long", Alts: [][]string{{"builtin.len", "pkg/vm/stackitem.MaxBigIntegerSizeBits"}}}},
+	}})
 	n := 0
 	for _, pk := range c.P.Pkgs {
 		for _, file := range pk.Syntax {
